@@ -294,6 +294,10 @@ impl StreamAlphaNode {
 
     /// Get current time in milliseconds since epoch
     fn current_time_ms() -> u64 {
+        #[cfg(feature = "verif-hooks")]
+        if let Some(ms) = crate::verif_hooks::clock_override_ms() {
+            return ms;
+        }
         SystemTime::now()
             .duration_since(UNIX_EPOCH)
             .unwrap()
